@@ -6,6 +6,7 @@ import (
 	"errors"
 	"fmt"
 	"io"
+	"math/rand"
 	"reflect"
 	"strings"
 	"unicode/utf8"
@@ -474,6 +475,8 @@ func init() {
 			ifaceT := reflect.TypeOf((*any)(nil)).Elem()
 			fam := c.Idx % 8
 			switch {
+			case fam == 5:
+				c09BoundarySweep(c, r)
 			case fam < 5:
 				// documents x destination types x chunkings
 				var doc []byte
@@ -606,6 +609,66 @@ func init() {
 			}
 		},
 	})
+}
+
+var c09SweepNames = []string{"alpha", "Beta", "x/y", "g_3", "Delta9", "e", "ab", "name", "id", "k10", "k11", "k12", "k13", "k14", "k15", "k16", "k17", "k18", "k19"}
+var c09SweepTypes = []reflect.Type{reflect.TypeOf(0), reflect.TypeOf(""), reflect.TypeOf([]int(nil)), reflect.TypeOf(map[string]int(nil)), reflect.TypeOf((*int)(nil)),
+	reflect.TypeOf(struct {
+		A int
+		B string
+	}{}), reflect.TypeOf(1.5), reflect.TypeOf(false), reflect.TypeOf((*any)(nil)).Elem(), reflect.TypeOf(int8(0)), reflect.TypeOf([]string(nil))}
+
+// c09BoundarySweep: the stream decoder refills (and reallocates) its buffer after 511, 1023, 2047
+// bytes. A padding member in front moves those boundaries over every byte of the members that
+// follow, for struct destinations of each of the three key-lookup implementations (<= 8 names,
+// 9..16 names, more), with keys spelled raw, escaped, in another case, and unknown keys.
+func c09BoundarySweep(c *rt.Ctx, r *rand.Rand) {
+	nf := []int{2, 8, 9, 12, 16, 17, 19}[c.Idx/8%7]
+	var inner []reflect.StructField
+	for i := 0; i < nf; i++ {
+		inner = append(inner, reflect.StructField{Name: fmt.Sprintf("F%d", i), Type: c09SweepTypes[(i+r.Intn(3))%len(c09SweepTypes)],
+			Tag: reflect.StructTag(`json:"` + c09SweepNames[i] + `"`)})
+	}
+	it := reflect.StructOf(inner)
+	full := reflect.StructOf(append([]reflect.StructField{{Name: "P", Type: reflect.TypeOf(""), Tag: `json:"p"`}}, inner...))
+	v := gen.Value(r, it, 2, gen.ValOpts{RoundTrip: true, MaxLen: 3})
+	base, err := stdjson.Marshal(v.Interface())
+	if err != nil {
+		return
+	}
+	mut := []string{"none", "key-escaped", "key-case", "unknown-key", "string-escapes", "nested-unknown", "whitespace", "dup-key"}[c.Idx/56%8]
+	tail := bytes.TrimSpace(gen.MutateDoc(r, base, mut))
+	if len(tail) < 4 || tail[0] != '{' || !oracle.Recognise(tail, 0) {
+		return
+	}
+	tail = tail[1:]
+	if !c.Cur(0, "shapes=core\ntype: "+full.String()+"\ntail: "+string(tail)) {
+		return
+	}
+	sub := 0
+	for _, boundary := range []int{511, 1023, 2047} {
+		if boundary == 2047 && c.Tier != "thorough" {
+			continue
+		}
+		for o := 0; o < len(tail) && o < boundary-8; o++ {
+			doc := []byte(`{"p":"` + strings.Repeat("x", boundary-8-o) + `",` + string(tail))
+			tree, _ := oracle.Parse(doc)
+			if tree == nil {
+				c.Obs("outside_domain_document", 1)
+				break
+			}
+			compareStreamBuffer(c, sub, doc, tree, true, full, &chunkReader{data: doc, failAt: -1}, "whole-reads", boundary)
+			compareStreamBuffer(c, sub, doc, tree, true, full, &chunkReader{data: doc, cuts: fixedCuts(len(doc), 64), failAt: -1}, "fixed=64", boundary)
+			sub++
+		}
+	}
+	c.NonTrivial(full.String(), string(tail))
+	c.NonTrivialEnum(int64(sub))
+	c.Obs("boundary_sweep_positions", int64(sub))
+	c.SetAdd("boundary_sweep_field_counts", fmt.Sprint(nf+1))
+	if c.Idx%56 == 5 {
+		c.Sample(map[string]any{"family": "buffer-boundary sweep", "fields": nf + 1, "mutation": mut, "tail": string(tail[:minInt(len(tail), 160)]), "positions": sub})
+	}
 }
 
 func minInt(a, b int) int {
